@@ -273,6 +273,9 @@ func getBlock(ctx context.Context, c cid.Cid, bs BlockService, fetchFactory func
 	if err != nil {
 		return nil, err
 	}
+	if !blk.Cid().Equals(c) { // never trust the exchange to answer with the block that was asked for
+		return nil, ipld.ErrNotFound{Cid: c}
+	}
 	// also write in the blockstore for caching, inform the exchange that the block is available
 	err = blockstore.Put(ctx, blk)
 	if err != nil {
@@ -359,6 +362,10 @@ func getBlocks(ctx context.Context, ks []cid.Cid, blockservice BlockService, fet
 			logger.Debugf("Error with GetBlocks: %s", err)
 			return
 		}
+		wanted := cid.NewSet()
+		for _, c := range misses {
+			wanted.Add(c)
+		}
 
 		ex := blockservice.Exchange()
 		var cache [1]blocks.Block // preallocate once for all iterations
@@ -372,6 +379,10 @@ func getBlocks(ctx context.Context, ks []cid.Cid, blockservice BlockService, fet
 				b = v
 			case <-ctx.Done():
 				return
+			}
+			if !wanted.Has(b.Cid()) {
+				logger.Errorf("exchange returned a block that was not requested: %s", b.Cid())
+				continue
 			}
 
 			// write in the blockstore for caching
